@@ -1238,7 +1238,8 @@ let do_poll s f w =
         | FSendB (rest, sent, total) ->
           if N.eqb sent total
           then ((put_f f { fh = fr.fh; fk = (FSendB (rest, sent, total));
-                  fpend = None } (unreg_send f s)), (RReady (RBatchOk total)))
+                  fpend = None } (unreg_send f (note_lost f fr s))), (RReady
+                 (RBatchOk total)))
           else if tx_dead s r
                then ((put_f f { fh = fr.fh; fk = (FSendB ([], sent, total));
                        fpend = None }
